@@ -311,6 +311,11 @@ pub const DIMCHECK: bool = cfg!(feature = "dimcheck");
 // ordered f32 keys (adjacent floats differ by 1; -0 canonicalised to +0)
 // ---------------------------------------------------------------------------------------------
 pub fn f32_key(x: f32) -> i64 {
+    // every NaN has the same key: sign and payload of a NaN depend on how the compiler orders the operands of an addition or
+    // multiplication and carry no meaning
+    if x.is_nan() {
+        return 0x7FC0_0000;
+    }
     let x = if x == 0.0 { 0.0f32 } else { x };
     let b = x.to_bits();
     if b & 0x8000_0000 != 0 {
